@@ -34,12 +34,31 @@ pub struct SMapT {
   pub debug_id: Option<String>,
 }
 impl SMapT {
-  pub fn build(&self) -> SourceMap {
+  pub fn build(&self) -> SourceMap { self.used(self.build_plain()) }
+  pub fn build_plain(&self) -> SourceMap {
     let mut m = SourceMap::new(self.mappings.clone(), self.sources.clone(), self.contents.clone(), self.names.clone());
     m.set_file(self.file.clone());
     m.set_source_root(self.root.clone());
     m.set_debug_id(self.debug_id.clone());
     m
+  }
+  /// Every third map value reaches its tables through a history instead of the constructor (seed S137): `m` (which already has this
+  /// value's file / sourceRoot / debugId) is given other `sources` / `sourcesContent` / `names`, attached to a SourceMapSource, streamed in
+  /// all four modes, handed back by `map()`, and only then given this value's tables through the setters — sourceRoot is not touched
+  /// again.  Anything the crate memoises inside a SourceMap while streaming must not survive the setters.
+  pub fn used(&self, m: SourceMap) -> SourceMap {
+    if self.mappings.len() % 3 != 1 { return m }
+    let fallback = m.clone();
+    catch(|| {
+      let mut d = m;
+      let decoy: Vec<String> = self.sources.iter().map(|s| format!("old-{s}")).chain(["old-extra.js".to_string()]).collect();
+      d.set_sources(decoy); d.set_sources_content(vec!["old content".to_string()]); d.set_names(vec!["oldname".to_string()]);
+      let s = SourceMapSource::new(WithoutOriginalOptions { value: "ab;cd\nef\n", name: "used.js", source_map: d });
+      for cols in [true, false] { for fin in [false, true] { let _ = run_stream(&s, cols, fin); } }
+      let mut m = s.map(&MapOptions::default()).expect("a SourceMapSource without inner map returns its map");
+      m.set_sources(self.sources.clone()); m.set_sources_content(self.contents.clone()); m.set_names(self.names.clone());
+      m
+    }).unwrap_or(fallback)
   }
   pub fn of(m: &SourceMap) -> SMapT {
     SMapT { mappings: m.mappings().to_string(), sources: m.sources().to_vec(), contents: m.sources_content().to_vec(), names: m.names().to_vec(),
@@ -134,7 +153,7 @@ impl Ctx {
     if m.file.is_some() { x.set_file(m.file.clone()); }
     if m.root.is_some() { x.set_source_root(m.root.clone()); }
     if m.debug_id.is_some() { x.set_debug_id(m.debug_id.clone()); }
-    x
+    m.used(x)
   }
   pub fn build(&mut self, t: &T) -> BoxSource {
     match t {
